@@ -353,7 +353,22 @@ func Workdir() string {
 // ---------- generators ----------
 var lineAlpha = []byte("aabbc:: !\t x0\xc3\xa9\xff")
 
+// white space as Go's unicode.IsSpace sees it (what strings.TrimSpace removes, so what Truthy ignores), and
+// look-alikes that are NOT white space: zero width space, BOM, Mongolian vowel separator, truncated sequences
+var uniSpaces = []string{"\u00a0", "\u0085", "\u1680", "\u2003", "\u2009", "\u2028", "\u2029", "\u202f", "\u205f", "\u3000", " ", "\t"}
+var notSpaces = []string{"\u200b", "\ufeff", "\u180e", "\xc2", "\xe2\x80", "\xe3\x80", "\xa0", "\u2060"}
+
 func genLine(r *Rng, maxLen int) []byte {
+	if r.Chance(1, 7) { // key, colon, then a value made of non-ASCII white space only - or nearly
+		b := []byte{lineAlpha[r.Intn(5)], ':'}
+		for i, k := 0, 1+r.Intn(3); i < k; i++ {
+			b = append(b, Pick(r, uniSpaces)...)
+		}
+		if r.Chance(1, 3) {
+			b = append(b, Pick(r, notSpaces)...)
+		}
+		return b
+	}
 	n := r.Intn(maxLen + 1)
 	if r.Chance(1, 6) {
 		n = 0
